@@ -221,7 +221,7 @@ func c09SnapshotSelfChecked(r *core.Report) {
 				base := core.Unparen(ix.X)
 				if c, ok := base.(*ast.CallExpr); ok && isListing(info, c) {
 					n++
-					r.Violation(rule, fmt.Sprintf("%s#index-on-fresh-listing:%s", w.Key, core.ExprStr(ix)), pos(r, ix), "an element is taken from a fresh epoch listing ("+core.ExprStr(ix)+") that was never checked itself: whatever was tested before came from another lock section, and the epoch set may have changed in between (wrong epoch chosen, or index out of range)")
+					r.Violation(rule, fmt.Sprintf("%s#index-on-fresh-listing:%s", w.Key, core.KeyStr(w, ix)), pos(r, ix), "an element is taken from a fresh epoch listing ("+core.ExprStr(ix)+") that was never checked itself: whatever was tested before came from another lock section, and the epoch set may have changed in between (wrong epoch chosen, or index out of range)")
 					return true
 				}
 				o := core.ObjOf(info, base)
@@ -240,7 +240,7 @@ func c09SnapshotSelfChecked(r *core.Report) {
 					return true // indices handed out by sort.Slice for this very slice
 				}
 				n++
-				k := fmt.Sprintf("%s#index-on-snapshot:%s", w.Key, core.ExprStr(ix))
+				k := fmt.Sprintf("%s#index-on-snapshot:%s", w.Key, core.KeyStr(w, ix))
 				node := g.NodeOf(ix.Pos())
 				okLen := false
 				if node != nil {
